@@ -270,6 +270,9 @@ class World:
             self.next_id += 1
             self.net.append(d)
             self.step_logs, self.step_emitted, self.step_internal_errors = [], [], []
+        elif kind == 'advance':     # ('advance', dt): time passes without any daemon waking up (select() is still waiting)
+            self.clock += ev[1]
+            self.step_logs, self.step_emitted, self.step_internal_errors = [], [], []
         elif kind == 'drop':
             self.net.remove(self.find(ev[1]))
             self.step_logs, self.step_emitted, self.step_internal_errors = [], [], []
